@@ -35,7 +35,7 @@ PROFILE = {("predict", "predict_insample"): "pi", ("transform",): "t", ("transfo
            ("predict", "predict_proba"): "pp", ("predict",): "p"}
 
 
-def series_data(entry, seed, container="series"):
+def series_data(entry, seed, container="series", start=3):
     rng = np.random.RandomState(seed)
     n = 24
     t = np.arange(n)
@@ -44,7 +44,7 @@ def series_data(entry, seed, container="series"):
         y[5] = np.nan
         y[17] = np.nan
         y[11] = 90.0      # an outlier
-    idx = pd.RangeIndex(3, 3 + n)
+    idx = pd.RangeIndex(start, start + n)
     if (container == "frame" and entry.get("missing")) or entry.get("frame"):
         return pd.DataFrame({"a": y, "b": y[::-1].copy()}, index=idx)
     return pd.Series(y, index=idx)
@@ -94,6 +94,13 @@ def run_scenario(entry, plan, container, seed, tid):
         if m == "inverse_transform":
             return est.inverse_transform(inv)
         if kind == "forecaster":
+            if m == "predict_fail":
+                # a call that is rejected part-way (in-sample forecasts do not take exogenous data): nothing may stick
+                try:
+                    est.predict([-3, -1, 0], X=pd.DataFrame({"x": [1.0, 2.0, 3.0]}))
+                    return "returned"
+                except Exception as e:
+                    return "raised"
             if m == "predict":
                 return est.predict([4, 5, 6])
             if seed % 2:
@@ -127,7 +134,8 @@ def run_scenario(entry, plan, container, seed, tid):
             # the same object fitted again on other data answers like a fresh estimator fitted on that data only
             seedB = seed + 50
             if kind == "series-transformer":
-                XB, yB = series_data(entry, seedB, container), None
+                # ... on a series that starts two time points later (not a multiple of any seasonal period used)
+                XB, yB = series_data(entry, seedB, container, start=5), None
             else:
                 XB, yB = panel_data(entry, seedB, container)
             aB = (XB,) if yB is None else (XB, yB if kind != "regressor" else np.asarray(yB, dtype=float))
@@ -256,6 +264,8 @@ def run(ctx):
         if prof in ("pp", "pi"):     # one fixed interleaving with every method repeated
             a, b = entry["methods"]
             chosen = list(chosen) + [("fit", a, b, a, a, b)]
+        if prof == "pi":             # ... and one with a failing call in between
+            chosen = list(chosen) + [("fit", "predict", "predict_fail", "predict", "predict_insample", "predict_fail", "predict")]
         conts = ["series", "frame"] if entry["kind"] == "series-transformer" and entry.get("missing") else \
             (["series"] if entry["kind"] in ("series-transformer", "forecaster") else ["nested", "numpy3d"])
         for pi, plan in enumerate(dict.fromkeys(chosen)):
